@@ -1,6 +1,7 @@
 package main
 
 import (
+	"go/ast"
 	"golang.org/x/tools/go/ssa"
 	"os"
 	"runtime/debug"
@@ -643,7 +644,23 @@ func (e *Env) selVal(x *SExpr, a Val, name string) Val {
 		l := &Loc{Kind: LGhost, Heap: gf.family, Ref: fg.refOf(ref), Ty: t, GSort: srt}
 		return Val{T: fg.load(e.st, l), Ty: t, Sort: srt}
 	}
-	obj, index, _ := types.LookupFieldOrMethod(a.Ty, true, e.pkg, name)
+	// an unexported field name is resolved as the package that WROTE the clause sees it - the package
+	// of the function under verification - before the package of a callee whose contract or
+	// before-clause is being evaluated (an embedded foreign struct may have a field of the same name)
+	var obj types.Object
+	var index []int
+	if fg.fn != nil {
+		if own := fg.g.pkgOfFn(fg.fn); own != nil && own != e.pkg {
+			if o, ix, _ := types.LookupFieldOrMethod(a.Ty, true, own, name); o != nil {
+				if _, isVar := o.(*types.Var); isVar && !ast.IsExported(name) && o.Pkg() == own {
+					obj, index = o, ix
+				}
+			}
+		}
+	}
+	if obj == nil {
+		obj, index, _ = types.LookupFieldOrMethod(a.Ty, true, e.pkg, name)
+	}
 	if obj == nil {
 		// try without package restriction (unexported fields of other packages)
 		obj, index, _ = lookupFieldAnyPkg(a.Ty, name)
